@@ -25,8 +25,12 @@ def gen(rng: random.Random, tier: str):
             form = lambda: rng.choice(["unix-int", "unix-int", "unix-float", "naive-dt", "iso"])
             c.update(tz=rng.choice(TZS), tcol=rng.choice(["int", "datetime"]), cuts=[[k, form()] for k in cuts],
                      end=rng.choice([None, None, [cuts[-1] + rng.randint(1, 60), form()]]))
-        else: c.update(cut=rng.randint(0, 200), end=rng.choice([None, rng.randint(0, 260)]), frac=rng.choice([None, 0.2, 0.5]))
+        else: c.update(cut=0 if rng.random() < 0.12 else rng.randint(0, 200), end=rng.choice([None, rng.randint(0, 260)]), frac=rng.choice([None, 0.2, 0.5]))          # a cut-off of 0 is a cut-off
         yield c
+    # directed: a cut-off of 0 on integer timestamps that start at 0 (relative offsets) — everything is test data, nothing is training data
+    for end in (None, 120):
+        rows = [[100 + u, 1000 + i, float(rng.randint(1, 5)), rng.choice([0, 0, rng.randint(0, 200)])] for u in range(4) for i in range(4) if rng.random() < 0.7]
+        yield {"kind": "temporal", "rows": rows, "seed": rng.randrange(10**6), "test_only": False, "cut": 0, "end": end, "frac": None}
 
 BASE = 1_600_000_000; STEP = 1800
 TZS = [["UTC0", 0], ["CST6", -21600], ["IST-5:30", 19800], ["LINT-14", 50400], ["<-03>3", -10800]]      # POSIX TZ strings (no tzdata needed), seconds east of UTC
